@@ -12,14 +12,25 @@ env = dict(os.environ, GOFLAGS="-mod=mod", GOPROXY="off", GOSUMDB="off", GOTOOLC
 def sh(cmd, cwd=None):
     p = subprocess.run(cmd, cwd=cwd, env=env, stdout=subprocess.PIPE, stderr=subprocess.STDOUT, text=True, shell=isinstance(cmd, str))
     return p.returncode, p.stdout
-st = sh("git -C /repo status --porcelain")[1].strip()
-if st: sys.exit("refusing: /repo has uncommitted changes:\n" + st)
-rc, out = sh(["git", "-C", "/repo", "apply", patch])
+# work on a scratch copy of /repo's HEAD unless --in-place (agents may be reading /repo concurrently)
+inplace = "--in-place" in ids
+if inplace: ids.remove("--in-place")
+import tempfile, shutil
+if inplace:
+    R = "/repo"
+    st = sh("git -C /repo status --porcelain")[1].strip()
+    if st: sys.exit("refusing: /repo has uncommitted changes:\n" + st)
+else:
+    R = tempfile.mkdtemp(prefix="mutrepo_", dir="/tmp")
+    sh(f"git -C /repo archive HEAD | tar -x -C {R}")
+    sh(f"cd {R} && git init -q && git add -A && git -c user.email=a@b -c user.name=x commit -qm base")
+    env["VERIF_REPO"] = R
+rc, out = sh(["git", "-C", R, "apply", patch])
 if rc: sys.exit("patch does not apply: " + out)
 res = {}
 try:
-    rc, out = sh("go build ./... && go test -vet=off -count=1 ./... 2>&1 | grep -v 'no test files' | grep -v '^ok' ; exit ${PIPESTATUS[0]}", cwd="/repo")
-    rc2, out2 = sh("go test -vet=off -count=1 ./...", cwd="/repo")
+    rc, out = sh("go build ./... && go test -vet=off -count=1 ./... 2>&1 | grep -v 'no test files' | grep -v '^ok' ; exit ${PIPESTATUS[0]}", cwd=R)
+    rc2, out2 = sh("go test -vet=off -count=1 ./...", cwd=R)
     print("build+tests:", "pass" if rc2 == 0 else "FAIL\n" + out2[-1500:])
     for cid in ids:
         rc, out = sh(["./check", cid, "--tier", tier], cwd="/verif")
@@ -27,7 +38,10 @@ try:
         res[cid] = {"exit": rc, "violation": v[:1], "tail": out.splitlines()[-1:]}
         print(f"{cid}: {'CAUGHT' if rc == 1 and v else 'missed'}  {v[0] if v else ''}  {out.splitlines()[-1] if out.splitlines() else ''}")
 finally:
-    sh("git -C /repo checkout -- .")
-    st = sh("git -C /repo status --porcelain")[1].strip()
-    if st: print("WARNING: /repo not clean after revert:", st)
+    if inplace:
+        sh("git -C /repo checkout -- .")
+        st = sh("git -C /repo status --porcelain")[1].strip()
+        if st: print("WARNING: /repo not clean after revert:", st)
+    else:
+        shutil.rmtree(R, ignore_errors=True)
 print(json.dumps(res))
